@@ -207,6 +207,8 @@ pub struct SpecIn<'a> {
     pub all: &'a [(usize, Fact)],
     /// past(i, j): write i is in the read-from closure of write j
     pub past: &'a dyn Fn(usize, usize) -> bool,
+    /// clock of the "aged" initial state every replica started from (empty unless the history begins with Act::Age)
+    pub base: &'a Clk,
 }
 
 pub trait Sut: Clone + Debug + PartialEq + Serialize + DeserializeOwned + Send + 'static {
@@ -226,6 +228,12 @@ pub trait Sut: Clone + Debug + PartialEq + Serialize + DeserializeOwned + Send +
     /// commands of the *conflict templates* (campaign::gen_history, policy 254): role 0 = writer on the hot path,
     /// role 1 = nested remover on the hot path, role 2 = outer remover of the hot key; None = no templates for this type
     fn template_cmd(_role: u8, _rng: &mut crate::rng::Rng) -> Option<Cmd> {
+        None
+    }
+    /// the state of a replica after a long past in which every actor a has issued base[a] ops whose effects have all
+    /// been removed again (built through the public API from ops carrying those dots): empty contents, clock = base.
+    /// None = the type has no such state / aging is not modelled for it
+    fn aged(_base: &[(A, u64)]) -> Option<Self> {
         None
     }
     /// interpret a command at replica `actor` against the current state through the public API
